@@ -5,43 +5,43 @@ B = ("Holds for every input inside the stated bounds (evidence lists them per ru
 
 TEXT = {
  "C01": {"level": "Bounded model checking of the real Muxer: K real writes with symbolic timestamps / key-frame placement / parameter changes; every advertised segment and part is fetched through the real handlers, decoded and compared with a ghost list of accepted units. " + B,
-         "note": "mediacommon boundary stubbed (its Marshal/Unmarshal trusted to be inverse); playlist text layer bypassed here (C14/C15); integer summaries of the two float kernels proven by C03's lemmas"},
+         "note": "mediacommon boundary stubbed (its Marshal/Unmarshal trusted to be inverse); playlist text layer bypassed here (C14/C15); integer summaries of the two float kernels proven by C03's lemmas; H264 in all variants, H265 / VP9 / AV1 / Opus / audio-only multi-AU in dedicated fMP4 and Low-Latency runs"},
  "C02": {"level": "Same bounded runs: the specification cut rule (random access and (min duration reached or pending parameter change)) is evaluated on the symbolic inputs and compared with the observed rotations of every stream; first unit of each segment; init contents. " + B,
          "note": "as C01; the audio-only MPEG-TS 100-write rule is checked by a step harness from an arbitrary write count (state correspondence: counter = number of writes into the open segment)"},
  "C03": {"level": "Playlist durations, target durations and date-times of every served playlist compared with the ghost segments in the bounded runs, plus arithmetic lemmas: timestampToDuration within 1 ns of exact (Int), round/ceil float kernels equal to their integer summaries (bit-vector + IEEE-754, cvc5). " + B,
          "note": "float lemmas stated over the stdlib expression on pre-split operands; durations compared to 10 us"},
  "C04": {"level": "Relation between consecutive served playlists of every stream in the bounded runs (MSN monotone and stable, window size, URI numbers, part numbering, preload hint, equal MSNs across streams). " + B,
-         "note": "histories up to K writes from the real initial state (the key-frame-only runs slide the window 3-6 times); a request racing a rotation is covered by the conc.view runs (3 preemptions)"},
+         "note": "histories up to K writes from the real initial state (the key-frame-only runs slide the window 3-6 times) plus the inductive step.window harness (one real rotation from an arbitrary state satisfying the window invariant, MSN up to 99999 / 2^30); a request racing a rotation is covered by the conc.view runs (3 preemptions); Low-Latency with SegmentCount 7 and 9"},
  "C05": {"level": "Every URI of every served playlist is fetched through the real Muxer.Handle at first and later listings (status, content type, immutability, segment = concatenation of parts, fragment sequence numbers); expired and unknown URIs must not be served. " + B,
          "note": "RAM storage in the symbolic-timestamp runs; Directory storage (in-harness file system) in the slide and Low-Latency disk runs"},
  "C06": {"level": "Lemma: real hasPart vs the published(M,P) predicate on arbitrary stream states; request threads with symbolic _HLS_msn/_HLS_part text inside a real Low-Latency run (blocked-only-while-unpublished evaluated at quiescence after every write); preload hint; delta update vs full playlist. " + B,
-         "note": "cooperative scheduling with the writer's real writes as interference; one waiter"},
+         "note": "cooperative scheduling with the writer's real writes as interference; one or two waiters; SegmentCount 7 and 12"},
  "C07": {"level": "Pending requests of four kinds + real Close with symbolic preemption at its synchronisation points; afterwards all requests completed (non-200), lock free, later requests return, in-harness Directory empty. " + B,
          "note": "preemption only at synchronisation points; OS file system replaced by a POSIX-like model"},
  "C08": {"level": "Lock-set race candidates computed over the symbolic paths of the real muxer and storage code (writer accesses vs one reader thread per URL kind, with the mutexes held; happens-before from thread creation), every candidate confirmed by the Go race detector on a native stress run before being reported; run-time panics in any thread are findings. " + B,
          "note": "candidates the native run does not reproduce are listed as unconfirmed in evidence and not reported; atomic-view sub-claim rests on playlists being generated under the muxer mutex"},
  "C09": {"level": "Co-simulation inside the engine: symbolic writes into the real fMP4 Muxer, then the whole real Client reads it through the real Muxer.Handle; reported tracks and every delivered unit compared with what was written; lemma on codec-string acceptance. " + B,
-         "note": "client attached after the writes; fMP4 variant; transports (playlist text, fMP4 bytes) trusted lossless"},
+         "note": "client attached after the writes; fMP4 variant (H264, AV1; H265 / VP9 in the thorough tier); the MPEG-TS client half and the sliding-window downloader are covered by the client.ts.times / client.traditional runs; transports (playlist text, fMP4 bytes) trusted lossless"},
  "C10": {"level": "Real fMP4 stream/track processors, time converter and routine pool as engine threads on harness-built fragments with symbolic base times, durations and PTS offsets: delivered units = exactly those with pts >= 0, normalised to the first leading DTS, AbsoluteTime from PROGRAM-DATE-TIME. " + B,
-         "note": "MPEG-TS demuxing and 33-bit wrap are mediacommon's (outside); AbsoluteTime run uses smaller ranges"},
+         "note": "MPEG-TS demuxing is mediacommon's (outside), the 33-bit time decoder is interpreted; AbsoluteTime runs use smaller ranges and are compared at the resolution of one tick of the track's clock; H265 / VP9 / AV1 / MPEG-4 audio in run.cli.fmp4.codecs"},
  "C11": {"level": "Inductive step on the real fillSegmentQueue from an arbitrary (playlist, current segment) state (covers histories of any length for 'next = current+1'), plus the real runTraditional / runLowLatency loops against a scripted symbolic server. " + B,
          "note": "net/http replaced at NewRequestWithContext / Client.Do; one downloader instance"},
  "C12": {"level": "The whole real Client as engine threads against a scripted server, Close at a symbolic scheduling point and a fault at every request; exactly one error on Wait, no live goroutine, no late callback (deadlock = violation). " + B,
-         "note": "bounded symbolic preemption; goroutines inside net/http outside the model"},
+         "note": "bounded symbolic preemption; goroutines inside net/http outside the model; the Low-Latency downloader loop with a held preload-hint / playlist request has its own run"},
  "C13": {"level": "Real client stages on well-formed-but-unexpected parse results (every fMP4 codec kind, time scale 0, track-id permutations, empty fragments, absurd counts/values) and on Low-Latency playlists with any PROGRAM-DATE-TIME subset; Go run-time panics and wedges are the assertion. " + B,
-         "note": "arbitrary playlist bytes are C15's subject (decoder totality + post-conditions); truncation inside mediacommon's parsers outside"},
+         "note": "arbitrary playlist bytes are C15's subject (decoder totality + post-conditions); truncation inside mediacommon's parsers outside; MPEG-TS: unexpected sample order / missing leading-track data in the first segment"},
  "C14": {"level": "Symbolic field values (integers as symbolic decimal text, arbitrary legal string bytes, presence flags) through the real Marshal and Unmarshal: field-wise equality, Marshal fixpoint, kind detection, CRLF/unknown-tag/no-trailing-newline variant. " + B,
          "note": "durations, date-times and frame rates from enumerated boundary values (float formatting not solver-decided)"},
  "C15": {"level": "Arbitrary symbolic bytes after each of 36 tag prefixes in a valid frame through the real decoders (no panic; structural post-conditions on success; result marshals); independent strict RFC 8216 grammar symbolically executed over the real Marshal output for the C14 value space. " + B,
          "note": "one arbitrary line per document; ParseFloat / time.Parse on symbolic text are nondeterministic stubs"},
  "C16": {"level": "Symbolic track lists through the real Start and generateMultivariantPlaylist (accept/reject rule, variant, renditions, DEFAULT, names, URIs, query preservation), multivariant checks inside the bounded muxer runs, non-linear lemma on bandwidth(). " + B,
-         "note": "RESOLUTION/FRAME-RATE against the stubbed SPS; RFC 6381 strings of H264/AAC/Opus only"},
+         "note": "RESOLUTION/FRAME-RATE against the stubbed SPS; exact RFC 6381 strings of H264 / AAC / Opus and, by lemma.codecs.av1 (arbitrary sequence-header fields, natively a real encoded sequence header), AV1; H265 / VP9 by prefix"},
  "C17": {"level": "Differential harness: RAM backend vs disk backend (in-harness file system) vs byte-slice model under one symbolic sequence of Write/Seek operations with symbolic bytes and offsets; readers before/after Finalize and after Remove. " + B,
          "note": "small sizes (<= 3 bytes per write, offsets in [-4, 8]); OS replaced by a POSIX-like model"},
  "C18": {"level": "Window size, expired-URI, unknown-URI and Directory file-count checks in the bounded muxer runs (incl. key-frame-only runs that slide the window several times and a run with failing init regeneration); SegmentMaxSize rule by a step harness from an arbitrary segment state. " + B,
          "note": "retention over thousands of rotations is argued from the per-rotation checks, not proven inductively; SegmentMaxSize exactness for MPEG-TS audio/video writes only"},
  "C19": {"level": "Lemma on the real findCompatiblePartDuration with symbolic PartMinDuration for each constant sample duration of the table (all four clauses of the statement), plus a real Low-Latency run with symbolic PartMinDuration checking every served playlist. " + B,
-         "note": "sample durations from the table only; video-led run"},
+         "note": "sample durations from the table only; video-led runs (with and without an audio rendition) execute the real float kernels (targetDuration / partTargetDuration) on concrete frame durations at 10 / 30 / 29.97 / 60 fps"},
  "C20": {"level": "FIFO/exactly-once step harness and interference harnesses (throttled producer, blocked consumer, cancellation) with symbolic preemption at every synchronisation point; lost wake-ups appear as 'blocked although the predicate holds' at quiescence. " + B,
          "note": "one producer, one consumer; preemption only at synchronisation points"},
 }
